@@ -158,6 +158,9 @@ def to_pattern(p, shared=None, built=None):
         return Pbind({k: to_valpattern(v) for k, v in p[1].items()})
     if kind == 'pmono':
         return Pmono(p[1], {k: to_valpattern(v) for k, v in p[2].items()})
+    if kind == 'pmono_artic':
+        return Pmono(p[1], {k: to_valpattern(v) for k, v in p[2].items()},
+                     articulate=True)
     if kind == 'ppar':
         return Ppar(*[rec(c) for c in p[1]])
     if kind == 'pchain':
